@@ -302,6 +302,30 @@ func (tree *HTree) setReq(req *HTreeReq) {
 	tree.setToLeaf(&tree.ni, req)
 }
 
+// movePos repoints the item of ki from oldPos to newPos if and only if it still points at oldPos; test and
+// update are one step under the tree lock (GC relocates records while clients keep writing).
+func (tree *HTree) movePos(ki *KeyInfo, oldPos, newPos Position) (moved, found bool) {
+	tree.Lock()
+	defer tree.Unlock()
+
+	var req HTreeReq
+	req.ki = ki
+	tree.getLeaf(ki, &tree.ni)
+	if found = tree.leafs[tree.ni.offset].Get(&req); !found {
+		return
+	}
+	if req.item.Pos != oldPos {
+		return
+	}
+	req.Meta = Meta{0, 0, req.item.Ver, req.item.Vhash, 0}
+	req.Position = newPos
+	req.item.Pos = newPos
+	tree.getLeafAndInvalidNodes(ki, &tree.ni)
+	tree.setToLeaf(&tree.ni, &req)
+	moved = true
+	return
+}
+
 // remove if same offset or oldPos.ChunkID = -1
 func (tree *HTree) remove(ki *KeyInfo, oldPos Position) {
 	tree.Lock()
